@@ -18,7 +18,12 @@ import networkx as nx
 from common import Atom, Case, Run, call_impl, prepare, ImplError, enc_graph, enc_mapper, load_known_findings, canon
 import gen_tables_c05 as gt
 
-PROOFS = ["FGVerif.Proofs.C05", "FGVerif.Proofs.C05Bridge"]
+import genparsed
+
+# GenParsed: the generated parsed tables this check consumes are what the parser model makes of the
+# generated pattern strings (a parser change that alters how a shipped pattern parses breaks it)
+PROOFS = ["FGVerif.Proofs.C05", "FGVerif.Proofs.C05Bridge", "FGVerif.Proofs.GraphWF", "FGVerif.Proofs.C12Forest",
+          "FGVerif.Proofs.C05Input", genparsed.MODULE]
 
 # ---------------------------------------------------------------------------
 # encoders
@@ -567,6 +572,7 @@ def run(tier, seed):
     r = Run("C05", tier, seed)
     if not prepare(r, PROOFS, "C05"):
         return 2
+    genparsed.audit_into(r, only=["fast", "tree", "default_"])
     rng = r.rng
     ctx = {}          # id(case) -> (cfg, graph, require_h, entries) for the K3 oracle
     cases = []
@@ -692,6 +698,11 @@ def run(tier, seed):
              (true-embedding oracle).  Anything else is a VIOLATION."""
         if not o.spec_fail or id(o.case) not in ctx:
             return None
+        # both recorded defects are in the algorithm, so the MODEL shows them too: a failure is a
+        # known finding only if implementation and model give the same answer on this input and
+        # the model's answer fails the specification as well; otherwise it is a new defect
+        if not o.corr or o.spec_model != "0":
+            return None
         cfg, g, rh, out = ctx[id(o.case)]
         if isinstance(out, ImplError):
             return None
@@ -772,7 +783,7 @@ def run(tier, seed):
              "connected patterns with group_atoms and anti-patterns; require_implicit_hydrogen both ways; "
              "non-trivial = query with at least one returned entry, distinct by (configuration, graph, flag); "
              "plus direct is_functional_group comparisons",
-        checker_cmd="cd lean && lake build FGVerif.Proofs.C05 FGVerif.Proofs.C05Bridge && lake env lean FGVerif/Audit/C05.lean",
+        checker_cmd="cd lean && lake build " + " ".join(PROOFS) + " && lake env lean FGVerif/Audit/C05.lean && " + genparsed.CHECKER_CMD,
         explanation="theorems in lean/FGVerif/Proofs/C05.lean about Model/C05.lean (justified, ids_are_input_atoms, "
                     "locally_most_specific, most_specific, covering, bridge) and Proofs/C05Bridge.lean (the matcher "
                     "hypotheses of the bridge discharged from C03/C04: matcherComplete_model, "
@@ -780,4 +791,7 @@ def run(tier, seed):
                     "the acyclic sub-domain); model tied to fgutils.query by exact "
                     "end-to-end differential testing; executable specification with true embeddings "
                     "(C05.specFailures) applied to every implementation output; K3 decided per case by tracing the "
-                    "real map_subgraph result and testing it with an independent embedding oracle")
+                    "real map_subgraph result and testing it with an independent embedding oracle; Proofs/C05Input.lean restates the capstone with "
+                    "hypotheses on the input molecule only (hydrogen completion preserves well-formedness and forests: Proofs/C12Forest.lean); "
+                    + genparsed.EXPLANATION + " — for C05: GenParsed.default_tree_parsed (every pattern / anti-pattern graph, group atoms and pattern size of "
+                    "Generated/C05.lean from the strings of _default_fg_config) and stuck_tree_parsed (K4 witness configuration)")
